@@ -50,6 +50,7 @@ func Gen(r *hx.Rand, engine string, malformed bool) Case {
 			}
 		}
 		ss.EOF = r.Bool()
+		ss.SlowAck = r.Bool()
 		c.Sources = append(c.Sources, ss)
 	}
 	procErrs := r.Chance(1, 3)
@@ -75,11 +76,22 @@ func Gen(r *hx.Rand, engine string, malformed bool) Case {
 			ds.Procs = append(ds.Procs, genProc(r, engine, all, procErrs))
 		}
 		if nackMode >= 2 {
+			// single rejected records (votes arrive in pieces) and, half of the time, runs
+			// of 2..3 consecutive rejections (one multi-record DLQ write on a linear path)
 			den := []int{4, 8}[r.Intn(2)]
-			for _, id := range all {
-				if r.Chance(1, den) {
-					ds.Nack = append(ds.Nack, id)
+			runs := r.Bool()
+			for i := 0; i < len(all); i++ {
+				if !r.Chance(1, den) {
+					continue
 				}
+				n := 1
+				if runs {
+					n = r.Range(1, 3)
+				}
+				for j := 0; j < n && i+j < len(all) && all[i+j][0] == all[i][0]; j++ {
+					ds.Nack = append(ds.Nack, all[i+j])
+				}
+				i += n - 1
 			}
 		}
 		if r.Chance(1, 14) && len(all) > 0 {
@@ -102,6 +114,14 @@ func Gen(r *hx.Rand, engine string, malformed bool) Case {
 	c.Dlq.Win = [][2]int{{0, 0}, {0, 0}, {0, 0}, {1, 0}, {4, 1}, {3, 2}, {10, 10}}[r.Intn(7)]
 	if r.Chance(1, 10) {
 		c.Dlq.ErrAt = r.Range(1, 3)
+	}
+	if r.Chance(1, 3) {
+		// the DLQ rejects individual records, also one that is followed by accepted ones
+		for _, id := range all {
+			if r.Chance(1, 3) {
+				c.Dlq.Fail = append(c.Dlq.Fail, id)
+			}
+		}
 	}
 	for i := 0; i < 48; i++ {
 		c.Sched = append(c.Sched, r.Intn(1<<16))
